@@ -1,6 +1,6 @@
 (** Property C09 — the theorems the check counts as obligations.  Nothing but
     statements closed by [exact] and [Print Assumptions]. *)
-From HS Require Import Base.Prelude C09.Model C09.Resource C09.Sync C09.Limits C09.Pool.
+From HS Require Import Base.Prelude C09.Model C09.Resource C09.Sync C09.Limits C09.Pool C09.Bulk C09.Barrier.
 From Coq Require Import Sorting.Sorted.
 Local Open Scope Z_scope.
 
@@ -229,3 +229,43 @@ Theorem c09_pool_grant_seen_at_next_poll_partial : forall s c k conn, assoc_find
   assoc_find c (p_granted s) = Some conn -> snd (p_step s (PPoll c)) = PGot conn.
 Proof. exact pool_poll_sees_grant. Qed.
 Print Assumptions c09_pool_grant_seen_at_next_poll_partial.
+
+(* ------------------------------------------------------------------ *)
+(** * Bulkhead *)
+
+Theorem c09_bulkhead_inv : forall mx mq mw ops, 1 <= mx -> 0 <= mq ->
+  let s := b_run (b_init mx mq mw) ops in
+  0 <= b_active s <= mx /\ b_active s = zlen (b_inflight s) /\ zlen (b_queue s) <= mq /\
+  b_total s = b_accepted s + b_rejected s + b_timedout s + zlen (b_queue s) /\
+  (b_queue s = [] \/ b_active s = mx).
+Proof. exact bulkhead_inv. Qed.
+Print Assumptions c09_bulkhead_inv.
+
+Theorem c09_bulkhead_fifo : forall s now req enq item rest k, b_active s < b_max s -> b_expired s now enq = false ->
+  snd (b_drain s now ((req, enq, item) :: rest) k) = BForwarded (b_next s + 1) item /\
+  b_queue (fst (b_drain s now ((req, enq, item) :: rest) k)) = rest.
+Proof. exact bulkhead_fifo. Qed.
+Print Assumptions c09_bulkhead_fifo.
+
+(* ------------------------------------------------------------------ *)
+(** * Barrier *)
+
+Theorem c09_barrier_waiting_bound : forall parties ops, 1 <= parties ->
+  Z.of_nat (length (br_waiters (br_run (br_init parties) ops))) < parties.
+Proof. exact barrier_waiting_bound. Qed.
+Print Assumptions c09_barrier_waiting_bound.
+
+Theorem c09_barrier_trip : forall s c now, br_broken s = false ->
+  Z.of_nat (length (br_waiters s)) + 1 >= br_parties s ->
+  let s' := fst (br_step s (BrWaitStart c now)) in
+  snd (br_step s (BrWaitStart c now)) = BrTripped (map fst (br_waiters s)) /\
+  br_waiters s' = [] /\ br_released s' = br_released s ++ br_waiters s /\ br_gen s' = br_gen s + 1.
+Proof. exact barrier_trip. Qed.
+Print Assumptions c09_barrier_trip.
+
+Theorem c09_barrier_wait_is_parked : forall s c now, br_broken s = false ->
+  Z.of_nat (length (br_waiters s)) + 1 < br_parties s ->
+  (exists i, snd (br_step s (BrWaitStart c now)) = BrParked i) /\
+  (forall enq now', assoc_find c (br_released s) = Some enq -> snd (br_step s (BrWaitResume c now')) = BrReturned).
+Proof. exact barrier_wait_is_parked. Qed.
+Print Assumptions c09_barrier_wait_is_parked.
